@@ -67,9 +67,10 @@ theorem C02_specMaxLevel_is_max (cfg : Config) :
         · right; exact ⟨x, by simp, by rw [h3]; omega⟩
       · right; exact ⟨l, by simp [hl], h3⟩
 
-/-- Invariant over all histories — any init path, then any sequence of `set_config` calls and of further
-(failing) initialisation attempts at any position, with any configuration (valid or not) in the failed
-attempts: the facade's global maximum equals what the installed logger reports, and the installed
+/-- Invariant over all histories — any init path, then any sequence of `set_config` calls (through any clone
+of the handle, on any thread, one after the other), of reconfigurations applied by the file reloader
+(`.reload`), and of further (failing) initialisation attempts at any position, with any configuration
+(valid or not) in the failed attempts: the facade's global maximum equals what the installed logger reports, and the installed
 configuration is the last one that was *installed* (a failed attempt installs nothing). -/
 theorem C02_globalMax_inv (h : History) (s : State) (hr : run h = some s) :
     maxLogLevel s.cfg = some s.globalMax ∧ s.cfg = (installedCfgs h).getLast (by simp [installedCfgs]) := by
@@ -87,7 +88,8 @@ theorem C02_globalMax_inv (h : History) (s : State) (hr : run h = some s) :
 theorem C02_failed_reinit_changes_nothing (h : History) :
     run h = run { h with steps := h.steps.filter fun
       | .setConfig _ => true
-      | .reinit _ _ => false } := by
+      | .reinit _ _ => false
+      | .reload _ => true } := by
   unfold run runWith
   cases install h.first with
   | none => rfl
@@ -106,6 +108,42 @@ theorem C02_failed_reinit_changes_nothing (h : History) :
       | reinit p c =>
         simp only [List.filter_cons, steps, step, reinit, if_true]
         exact ih s0
+      | reload c =>
+        simp only [List.filter_cons, steps, step, if_true]
+        cases install c with
+        | none => rfl
+        | some s' => exact ih s'
+
+/-- A reconfiguration applied by the file reloader is a reconfiguration: replacing every `.reload c` of a
+history by `.setConfig c` gives the same state (the reloader has no path of its own to the snapshot or to
+the global maximum). -/
+theorem C02_reload_is_set_config (h : History) :
+    run h = run { h with steps := h.steps.map fun
+      | .reload c => .setConfig c
+      | st => st } := by
+  unfold run runWith
+  cases install h.first with
+  | none => rfl
+  | some s0 =>
+    simp only
+    generalize h.steps = sts
+    induction sts generalizing s0 with
+    | nil => rfl
+    | cons st sts ih =>
+      cases st with
+      | setConfig c =>
+        simp only [List.map_cons, steps, step]
+        cases install c with
+        | none => rfl
+        | some s' => exact ih s'
+      | reinit p c =>
+        simp only [List.map_cons, steps, step]
+        exact ih _
+      | reload c =>
+        simp only [List.map_cons, steps, step]
+        cases install c with
+        | none => rfl
+        | some s' => exact ih s'
 
 /-- … hence, for valid configurations, the most verbose level among root and loggers of the current one —
 after levels went up and after they went down. -/
@@ -120,9 +158,17 @@ whatever the failed attempts carried. -/
 theorem C02_run_total (h : History) (hv : ∀ c ∈ installedCfgs h, Valid c) : (run h).isSome = true := by
   obtain ⟨s0, hs0⟩ := install_of_valid h.first (hv _ (by simp [installedCfgs]))
   simp only [run, runWith, hs0]
-  refine steps_total h.steps s0 (fun c hc => hv c ?_)
+  refine steps_total h.steps s0 (fun st hst c hc => hv c ?_)
   simp only [installedCfgs, List.mem_cons, List.mem_filterMap]
-  exact Or.inr ⟨_, hc, rfl⟩
+  exact Or.inr ⟨st, hst, hc⟩
+
+/-- What the logger reports (`Logger::max_log_level()` of the installed snapshot), the facade's global
+maximum and the specification's "most verbose level among the root and all configured loggers" are one
+number after every history — initialisation, reconfigurations through any handle, file reloads, failed
+re-initialisations. -/
+theorem C02_reported_eq_globalMax_eq_spec (h : History) (s : State) (hr : run h = some s) (hv : Valid s.cfg) :
+    maxLogLevel s.cfg = some (specMaxLevel s.cfg) ∧ s.globalMax = specMaxLevel s.cfg :=
+  ⟨C02_maxLevel_eq s.cfg hv, C02_globalMax_eq_spec h s hr hv⟩
 
 /-- Logging through the macros equals routing: the facade filter `lvl ≤ max_level()` never drops a record
 the installed configuration admits (and of course adds none). -/
@@ -188,6 +234,11 @@ def exHistory : History :=
     steps := [.reinit .rawConfig exBroken, .setConfig exDeep, .reinit .config exOff, .setConfig exQuiet,
       .reinit .configWithErrHandler exDeep] }
 
+/-- `init_file`, then the reloader applies a document in which only a deep descendant is verbose, then a
+quiet one again -/
+def exReloadHistory : History :=
+  { path := .file, first := exQuiet, steps := [.reload exDeep, .reinit .file exOff, .reload exQuiet] }
+
 /-- The historical behaviour (before d39d776, `runWith false`): after a successful initialisation with the
 deep-verbose configuration, a second `init_config` with an all-Off configuration failed but had already
 lowered the global maximum to Off — the TRACE record the installed configuration admits (routing delivers
@@ -200,7 +251,7 @@ theorem C02_failed_reinit_broke_gating_unfixed :
   refine ⟨{ path := .config, first := exDeep, steps := [.reinit .config exOff] },
     { cfg := exDeep, globalMax := 0 }, ['a', ':', ':', 'b', ':', ':', 'c'], 5, ?_, ?_, ?_, ?_, ?_, ?_, ?_⟩
   · intro c hc
-    have : c = exDeep := by simpa [installedCfgs] using hc
+    have : c = exDeep := by simpa [installedCfgs, Step.installs] using hc
     subst this
     unfold Valid; decide
   all_goals decide
@@ -211,6 +262,10 @@ example : Valid exQuiet := by unfold Valid; decide
 example : (run { exHistory with steps := exHistory.steps.take 3 }).map (·.globalMax) = some 5 := by decide
 /-- … and the quiet configuration down again -/
 example : (run exHistory).map (·.globalMax) = some 1 := by decide
+/-- test on a sample: a reload moves the global maximum up to the deep logger's level … -/
+example : (run { exReloadHistory with steps := exReloadHistory.steps.take 2 }).map (·.globalMax) = some 5 := by decide
+/-- … and the next one down again -/
+example : (run exReloadHistory).map (·.globalMax) = some 1 := by decide
 /-- test on a sample: a TRACE record for the deep logger passes the facade and reaches `x` -/
 example : (run { exHistory with steps := exHistory.steps.take 3 }).bind
     (fun s => macroLog s ['a', ':', ':', 'b', ':', ':', 'c', ':', ':', 'd'] 5) = some [['x']] := by decide
